@@ -71,8 +71,8 @@ func (f *faultCtl) quiesce() {
 	deadline := time.Now().Add(2 * time.Second)
 	for time.Now().Before(deadline) {
 		s, d := atomic.LoadInt64(&f.started), atomic.LoadInt64(&f.done)
-		// settle for 60us, yielding (time.Sleep rounds such waits up to about a millisecond)
-		for t0 := time.Now(); time.Since(t0) < 60*time.Microsecond; {
+		// settle for 200us, yielding (time.Sleep rounds such waits up to about a millisecond)
+		for t0 := time.Now(); time.Since(t0) < 200*time.Microsecond; {
 			runtime.Gosched()
 		}
 		if s == d && atomic.LoadInt64(&f.started) == s && atomic.LoadInt64(&f.done) == d {
@@ -157,7 +157,7 @@ func clamp(x, lo, hi int) int {
 
 // TestPropReadAtFaults: ReadAt sequences on one reader with fetch faults that come and go.
 func TestPropReadAtFaults(t *testing.T) {
-	vlib.Check(t, 1600, 16000, func(t *rapid.T) {
+	vlib.Check(t, 1200, 12000, func(t *rapid.T) {
 		var specs []spec
 		var base uint64
 		if rapid.Bool().Draw(t, "tiled") {
@@ -456,6 +456,6 @@ func TestPropReadAtFaults(t *testing.T) {
 				cls = append(cls, "fault-kind/"+k)
 			}
 		}
-		vlib.Case(fmt.Sprintf("%s calls[%s]", desc, strings.Join(callDescs, "; ")), errSeen, cls...)
+		vlib.Case(fmt.Sprintf("%s calls[%s]", desc, strings.Join(callDescs, "; ")), armedTouched, cls...)
 	})
 }
